@@ -987,6 +987,29 @@ impl ClusterState {
         }
     }
 
+    /// As `verif_add_tablet_from_payload`, for several payloads handed over in ONE batch (as the
+    /// cluster worker does when several responses carried tablets between two wake-ups).
+    /// Returns, per payload, whether it was taken into the batch; an undecodable payload is left out.
+    #[cfg(scylla_verif)]
+    pub(crate) fn verif_add_tablets_batch(
+        &mut self,
+        items: &[(String, String, HashMap<String, bytes::Bytes>)],
+    ) -> Vec<bool> {
+        let mut batch = Vec::new();
+        let mut taken = Vec::new();
+        for (keyspace, table, payload) in items {
+            match RawTablet::from_custom_payload(payload) {
+                Some(Ok(raw)) => {
+                    batch.push((TableSpec::owned(keyspace.clone(), table.clone()), raw));
+                    taken.push(true);
+                }
+                _ => taken.push(false),
+            }
+        }
+        self.update_tablets(batch);
+        taken
+    }
+
     pub(crate) fn verif_tablet_ranges(
         &self,
         table: &TableSpec<'_>,
